@@ -252,6 +252,7 @@ func propMain(args []string, o RunOpts, tier string) int {
 		if r.Error != "" {
 			if strings.HasPrefix(r.Error, "out-of-subset") {
 				outOfSubset = append(outOfSubset, r.Fn+": "+r.Error)
+				fmt.Printf("OUT-OF-SUBSET: %s: %s (undecided for this run: none of its obligations is counted)\n", r.Fn, r.Error)
 			} else if strings.HasPrefix(r.Error, "contract error") {
 				// the contract can no longer be bound to the code (renamed local, moved call, ...):
 				// undecided, not a violation; the bounded stand-in decides
